@@ -670,6 +670,18 @@ func (t *fnTrans) resolveMod(item string, env *Env) []modTarget {
 					if pre == "elems(" {
 						return []modTarget{{name: t.elemsVar(ty).Name}}
 					}
+					if st, ok := ty.Underlying().(*types.Struct); ok && !t.S.opaqueStruct(ty) {
+						// deref(StructType): structs live in per-field arrays - the item names every field of every object of the type
+						var r []modTarget
+						for i := 0; i < st.NumFields(); i++ {
+							if at, ok := st.Field(i).Type().Underlying().(*types.Array); ok {
+								r = append(r, modTarget{name: t.elemsVar(at.Elem()).Name})
+								continue
+							}
+							r = append(r, modTarget{name: t.fieldVar(ty, i).Name})
+						}
+						return r
+					}
 					return []modTarget{{name: t.derefVar(ty).Name}}
 				}
 			}
